@@ -1,9 +1,11 @@
 (** C03 -- Every setting comes from the highest-precedence level that defines
     it; load-order irrelevance; first existing suffix only.
-    Statements only; proofs are in Proofs/C03_merge.v, C03_levels.v, C03_order.v. *)
+    Statements only; proofs are in Proofs/C03_merge.v, C03_levels.v, C03_order.v,
+    C03_script.v, C03_envclause.v, C03_whole.v. *)
 From Coq Require Import Permutation.
 From InvokeVerif Require Import Common.Tree Common.StrUtil Model.MergeModel Model.ConfigModel
-     Spec.C03Spec Proofs.C03_merge Proofs.C03_levels Proofs.C03_order Proofs.C03_sweep.
+     Spec.C03Spec Proofs.C03_merge Proofs.C03_levels Proofs.C03_order Proofs.C03_sweep
+     Corr.C03Corr Proofs.C03_script Proofs.C03_whole.
 
 (** Path lookup through [merge_dicts] for type-consistent trees: the merge
     succeeds, stays well-formed, and at every path shows what the update says
@@ -140,15 +142,88 @@ Theorem C03_later_candidates_irrelevant : forall fs fs' loc,
   try_suffixes fs loc file_suffixes = try_suffixes fs' loc file_suffixes.
 Proof. exact later_candidates_irrelevant. Qed.
 
-(** ABSENT: a theorem "for EVERY load script the model's run is accepted by the
-    whole executable [spec_ok]" (levels read off the script by [supplied_of], the
-    environment level, the suffixes read, every prefix of the script).  What is
-    proved are its pieces -- the view against the oracle ([C03_highest_level_wins],
-    [C03_view_meets_spec]), the first-existing-suffix rule ([C03_first_suffix_only]),
-    load-order irrelevance, and the environment level (C16's theorems) -- but not
-    that [supplied_of] reads off a script the same level contents the model ends
-    up with.  That composition is only swept (next theorem) and exercised by the
-    correspondence on every run. *)
+(** WHOLE-SCRIPT THEOREM.  For EVERY file system, EVERY constructor arguments and
+    EVERY script of calls, the correspondence record built from the model's own
+    run (final observation or first exception, plus the snapshot after every
+    call that returned) is accepted by the whole executable specification
+    [C03Corr.spec]: [spec_ok] on the script as executed, and [spec_ok] on every
+    prefix against the snapshot observed right after it.  Inside [spec_ok] sit
+    the guards "the script is a load script ([wf_script])" and "the levels read
+    off the script by [supplied_of] are type-consistent and well-formed" -- so
+    this is: forall script, wf_script -> type-consistent ->
+    (view = oracle at every path of the nine levels, the environment level holds
+    exactly the settings the environment names, converted by type / the
+    documented exception, the suffixes read are the first existing ones, an
+    unreadable file that must be read is an error) for the model's run.
+    The proof composes: closed forms of the fold of calls (Proofs/C03_script.v),
+    [supplied_of] = the model's level fields (Proofs/C03_whole.v, [corr_levels],
+    [bad_unreadable]), [C03_first_suffix_only], [merge_all_shape]/[oracle]
+    ([C03_highest_level_wins]), up-to-date view of settled scripts ([sync_run]),
+    and the environment clause through C16's [load_meets_spec] /
+    [load_never_creates] and the insertion lemmas of Proofs/C16_view_shapes.v
+    (Proofs/C03_envclause.v).
+    Guard: the constructor returned ([start fs i = Ok c0]); the other case is
+    the next theorem. *)
+Theorem C03_whole_script_meets_spec : forall fs i ops c0,
+  start fs i = Ok c0 -> C03Corr.spec (model_case fs i ops) = true.
+Proof. exact whole_script_meets_spec. Qed.
+
+(** What [model_case] is: the record whose observations are the model's. *)
+Theorem C03_model_case_is_model_run : forall fs i ops,
+  c_fs (model_case fs i ops) = fs /\ c_init (model_case fs i ops) = i /\
+  c_ops (model_case fs i ops) = ops /\
+  c_obs (model_case fs i ops) = model_out (model_case fs i ops) /\
+  c_mids (model_case fs i ops) = model_mids (model_case fs i ops).
+Proof. intros. repeat split; reflexivity. Qed.
+
+(** The constructor raised (an unreadable system/user file, or defaults and
+    overrides that clash): the empty script is judged, with that exception. *)
+Theorem C03_constructor_failure_meets_spec : forall fs i e,
+  start fs i = Err e -> spec_ok fs i [] "INVOKE_" (Err e) = true.
+Proof. exact constructor_failure_meets_spec. Qed.
+
+(** Pieces of the above that read well on their own: every clean prefix of a
+    run is accepted on the snapshot taken after it; the call that raised is
+    accepted with its exception. *)
+Theorem C03_every_clean_prefix_accepted : forall fs i c0 done c,
+  start fs i = Ok c0 -> exec fs c0 done = Ok c ->
+  spec_ok fs i done "INVOKE_" (Ok (snap_of c)) = true.
+Proof. exact prefix_ok. Qed.
+
+Theorem C03_raising_call_accepted : forall fs i c0 done c o e,
+  start fs i = Ok c0 -> exec fs c0 done = Ok c -> snd (step fs c o) = OErr e ->
+  spec_ok fs i (done ++ [o]) "INVOKE_" (Err e) = true.
+Proof. exact fail_ok. Qed.
+
+(** The levels the specification reads off a script are the model's level
+    fields after the script (file levels taking part when found; [norm]: a
+    falsy non-dict level counts as empty), no file was unreadable, and the
+    suffixes read are the ones the specification asks for. *)
+Theorem C03_supplied_levels_are_model_levels : forall fs i ops,
+  forallb script_op ops = true -> no_bad fs (b0 i) (init_ops i ++ ops) = true ->
+  let c := apply_script fs (b0 i) (init_ops i ++ ops) in
+  let S := supplied_of fs i ops in
+  map norm (levels_of c) = levels9 S (Node []) ++ [Node []] /\
+  s_unreadable S = false /\
+  sfx_ok (s_sfx S) [c_sys_sfx c; c_user_sfx c; c_proj_sfx c] = true.
+Proof.
+  intros fs i ops HF Hnb. destruct (corr_levels fs i ops HF Hnb) as [H1 [H2 [H3 _]]].
+  cbv zeta in *. rewrite model_levels_eq. auto.
+Qed.
+
+(** Non-vacuity of the whole-script theorem: a script inside every guard (a
+    load script, type-consistent levels, constructor returns), ending with the
+    environment, whose run is Ok -- so the theorem's conclusion is the full
+    judgement, not one of the guard exits. *)
+Example C03_whole_script_example :
+  let i := mkInit (lv 1 true) (lv 8 false) (Some "projA") (Some ("rtA", "json")) false in
+  let ops := [LoadCollectionD (lv 2 true); SetProjectLocation (Some "projA"); LoadProject; LoadRuntime;
+              LoadShellEnv [("INVOKE_A_B", "9"); ("INVOKE_D", "8"); ("INVOKE_NOPE", "1")]] in
+  (exists c0, start sweep_fs i = Ok c0) /\
+  in_scope (model_case sweep_fs i ops) = true /\
+  (match c_obs (model_case sweep_fs i ops) with Ok _ => True | Err _ => False end) /\
+  List.length (c_mids (model_case sweep_fs i ops)) = 5.
+Proof. vm_compute. split; [eexists; reflexivity|]. repeat split; try reflexivity; exact I. Qed.
 
 (** A test, not the property: for two constructor settings (lazy/empty and
     eager with defaults+overrides), every script of at most 2 load calls from a
